@@ -834,15 +834,15 @@ package ucfg
 //@ ensures r == ctxof(self)
 
 //@ func (cfgSub).cpy :: c, ctx -> r
-//@ props C10 C15 C02 C01
-//@ tagged-only C02
+//@ props C10 C15 C02 C01 C14
+//@ tagged-only C02 C14
 //@ requires c.c != nil && c.c.fields != nil
 //@ requires forall k string :: has(c.c.fields.d, k) ==> c.c.fields.d[k] != nil
 //@ requires forall j int :: 0 <= j && j < len(c.c.fields.a) ==> c.c.fields.a[j] != nil
 //@ pure
 //@ ensures [type] typeof(r) == cfgSub && r.(cfgSub).c != nil && r.(cfgSub).c.fields != nil
 //@ ensures [fresh] fresh(r.(cfgSub).c) && fresh(r.(cfgSub).c.fields)
-//@ ensures [ctx] r.(cfgSub).c.ctx == ctx && r.(cfgSub).c.metadata == c.c.metadata
+//@ ensures [ctx @C10,C15,C01,C14] r.(cfgSub).c.ctx == ctx && r.(cfgSub).c.metadata == c.c.metadata
 //@ ensures [dictdom] forall k string :: has(r.(cfgSub).c.fields.d, k) == has(c.c.fields.d, k)
 //@ ensures [dictfresh] r.(cfgSub).c.fields.d == nil || fresh(r.(cfgSub).c.fields.d)
 //@ ensures [dictcopies] forall k string :: has(c.c.fields.d, k) ==> copyOf(r.(cfgSub).c.fields.d[k], c.c.fields.d[k]) && fresh(r.(cfgSub).c.fields.d[k])
@@ -1326,7 +1326,7 @@ package ucfg
 // dispatcher); what is proved here is that every callee precondition holds at its call site - in particular
 // that a configuration is never merged into itself (C11: Unpack is a read).
 //@ func reifyMergeValue :: opts, oldValue, val -> r, err
-//@ props C11
+//@ props C11 C07
 //@ norte
 //@ uses chase
 //@ rvwrites rvRootOf(oldValue), pointeeStore()
@@ -1548,6 +1548,7 @@ package ucfg
 //@ pure
 //@ rvwrites nothing
 //@ ensures [storage !unproved] rvRootOf(r) == rvRootOf(v) || rvRootOf(r) == pointeeStore()
+//@ ensures [settable !unproved] rvCanSet(v) ==> rvCanSet(r)
 //@ ensures [naming !unproved] r == chased(v)
 //@ ensures [scalar_is_itself] rvKind(v) != 22 && rvKind(v) != 20 ==> r == v
 //@ loop 1 invariant rvKind(entry(v)) != 22 && rvKind(entry(v)) != 20 ==> v == entry(v)
@@ -1704,6 +1705,7 @@ package ucfg
 //@ props C04 C07
 //@ sweep
 //@ requires rvKind(to) == 17 || rvKind(to) == 23
+//@ requires rvKind(to) == 17 ==> rvCanSet(to)
 //@ requires 0 <= start && start + len(arr) < 9223372036854775807
 //@ modifies *
 //@ ensures [kept_elements_validated] err == nil ==> forall j int :: 0 <= j && j < rvLen(to) && !(start <= j && j < start + len(arr)) ==> recValid(rvIndex(to, j))
@@ -1767,6 +1769,8 @@ package ucfg
 //@ rvwrites nothing
 //@ ensures [field_of_struct] err == nil && !skip ==> info.value == rvField(structVal, fieldIdx) && rvRootOf(info.value) == rvRootOf(structVal)
 //@ ensures [key] err == nil && !skip ==> isKeyOf(info.name, rtField(rvType(structVal), fieldIdx), old(opts.tag))
+//@ ensures [caller_options_kept] opts.configValueHandling == old(opts.configValueHandling)
+//@ ensures [settable !unproved] err == nil && !skip && rvCanSet(structVal) ==> rvCanSet(info.value)
 //@ ensures [policy_from_tag] err == nil && !skip && info.tagOptions.cfgHandling != cfgDefaultHandling ==> info.options.configValueHandling == info.tagOptions.cfgHandling
 //@ ensures [policy_inherited] err == nil && !skip && info.tagOptions.cfgHandling == cfgDefaultHandling ==> info.options.configValueHandling == old(opts.configValueHandling)
 
@@ -1790,6 +1794,7 @@ package ucfg
 //@ sweep
 //@ requires opts != nil && cfg != nil
 //@ requires rtKind(chasedT(rvType(chasedP(orig)))) == 25
+//@ requires rvCanSet(chasedP(orig))
 //@ modifies *
 //@ ensures [untouched_on_error] result != nil && old(allocated(rvRootOf(chasedP(orig)))) && rvRootOf(chasedP(orig)) != pointeeStore() ==> rvver(rvRootOf(chasedP(orig))) == old(rvver(rvRootOf(chasedP(orig))))
 //@ loop 1 invariant old(allocated(rvRootOf(chasedP(entry(orig))))) && rvRootOf(chasedP(entry(orig))) != pointeeStore() ==> rvver(rvRootOf(chasedP(entry(orig)))) == old(rvver(rvRootOf(chasedP(entry(orig)))))
@@ -2086,7 +2091,7 @@ package ucfg
 //@ func reifyGetField :: cfg, opts, name, to, fieldType -> result
 //@ props C13 C07
 //@ sweep
-//@ requires cfg != nil && opts.opts != nil
+//@ requires cfg != nil && opts.opts != nil && rvCanSet(to)
 //@ rvwrites rvRootOf(to), pointeeStore()
 //@ ensures [absent_untouched] result == nil && old(absent(cfg, name, opts.opts)) && rvRootOf(to) != pointeeStore() && (rtKind(fieldType) == 22 || (rtKind(fieldType) != 25 && !hasInit(fieldType))) ==> rvver(rvRootOf(to)) == old(rvver(rvRootOf(to)))
 
@@ -2160,7 +2165,7 @@ package ucfg
 //@ func reifyArray :: opts, to, tTo, val -> r, err
 //@ props C07
 //@ sweep
-//@ requires rtKind(tTo) == 17
+//@ requires rtKind(tTo) == 17 && rvKind(to) == 17 && rvCanSet(to)
 
 // the two Elem calls below are on pointer handles made from package-level types (tConfigPtr) or from a
 // *regexp.Regexp: their kind is a fact about package initialisation / boxing that is not modelled
@@ -2194,3 +2199,10 @@ package ucfg
 //@ sweep
 //@ requires rvKind(chased(from)) == 25
 //@ at-call normalizeSetField requires isKeyOf(name, rtField(rvType(caller(v)), caller(i)), entry(opts).tag)
+
+// settableCopy: an addressable copy (the pointee of a fresh pointer)
+//@ func settableCopy :: v -> r
+//@ props C07
+//@ sweep
+//@ rvwrites nothing
+//@ ensures [settable] rvCanSet(r) && rvKind(r) == rvKind(v) && rvType(r) == rvType(v) && fresh(rvRootOf(r))
